@@ -190,11 +190,12 @@ Fixpoint pmap_compose (dom : list string) (m1 m2 : pmap) : pmap :=
               | PVal _ => (k, v) :: pmap_compose r m1 m2
               end
   end.
+Definition punit : Z := 8.      (* PVal v stands for the number v / 8 (vf/checks/c12.py Vocab.UNIT) *)
 Definition rep_resolve (m : pmap) (r : rep) : rep :=
   match r with
   | RInt _ => r
   | RSym b s => match plookup m s with
-                | Some (PVal v) => RInt (if b then - v else v)
+                | Some (PVal v) => RInt (if b then - (v / punit) else v / punit)
                 | Some (PSym s') => RSym b s'
                 | None => r
                 end
